@@ -5,9 +5,12 @@ package main
 
 import (
 	"fmt"
+	"io"
 	"os"
+	"os/exec"
 	"runtime/debug"
 	"sort"
+	"strings"
 
 	"verif/checks"
 	"verif/internal/ev"
@@ -46,9 +49,83 @@ func main() {
 	if !ok {
 		usage()
 	}
+	if os.Getenv("VCHECK_CHILD") == "" {
+		os.Exit(contain(os.Args[1], c.Level))
+	}
 	r := ev.NewRun(os.Args[1], c.Level)
 	c.Fn(r)
 	os.Exit(r.Finish())
+}
+
+// contain runs the check in a child process. The code under test runs inside
+// the checker (mmap'd files, real locks): if it takes the whole process down
+// (SIGBUS on a mapping past the end of a shrunk file, fatal runtime error,
+// stack exhaustion) that is attributed to the property under test instead of
+// leaving the run without a verdict.
+func contain(id, level string) int {
+	self, err := os.Executable()
+	if err != nil {
+		self = os.Args[0]
+	}
+	cmd := exec.Command(self, os.Args[1:]...)
+	cmd.Env = append(os.Environ(), "VCHECK_CHILD=1")
+	cmd.Stdout = os.Stdout
+	var tail tailBuf
+	cmd.Stderr = io.MultiWriter(os.Stderr, &tail)
+	cmd.Stdin = os.Stdin
+	err = cmd.Run()
+	code := 0
+	if err != nil {
+		code = -1
+		if ee, ok := err.(*exec.ExitError); ok {
+			code = ee.ExitCode()
+		}
+	}
+	if code == 0 || code == 1 {
+		return code
+	}
+	// abnormal death of the checking process
+	r := ev.NewRun(id, level)
+	r.Rule = "the checking process died before finishing; see the violation"
+	r.Eval(1)
+	r.NotExhaustive("checker process died")
+	st := tail.String()
+	kind := "died"
+	for _, k := range []string{"SIGBUS", "SIGSEGV", "stack overflow", "out of memory", "fatal error", "panic:"} {
+		if strings.Contains(st, k) {
+			kind = strings.ReplaceAll(strings.TrimSuffix(k, ":"), " ", "-")
+			break
+		}
+	}
+	r.Violation(id+":checker-process-crashed:"+kind, fmt.Sprintf("the process running the code under test died (exit %d): %s", code, firstLines(st, 6)), map[string]interface{}{"stderr_tail": st})
+	return r.Finish()
+}
+
+type tailBuf struct{ b []byte }
+
+func (t *tailBuf) Write(p []byte) (int, error) {
+	// keep the head: a Go crash says what happened first and then dumps every goroutine
+	if len(t.b) < 16000 {
+		t.b = append(t.b, p...)
+	}
+	return len(p), nil
+}
+func (t *tailBuf) String() string { return string(t.b) }
+
+func firstLines(s string, n int) string {
+	// the interesting part of a Go crash is at its start
+	if i := strings.Index(s, "fatal error"); i >= 0 {
+		s = s[i:]
+	} else if i := strings.Index(s, "unexpected signal"); i >= 0 {
+		s = s[i:]
+	} else if i := strings.Index(s, "panic:"); i >= 0 {
+		s = s[i:]
+	}
+	l := strings.Split(s, "\n")
+	if len(l) > n {
+		l = l[:n]
+	}
+	return strings.Join(l, " | ")
 }
 
 func usage() {
